@@ -317,9 +317,9 @@ func compareNumbers(a, b *protoOut) (diffs []string, common int) {
 
 // byPathTable keys fields by (schemapath annotation, field name): used to compare runs whose
 // message names differ (package_hierarchy on/off, other package names).
-func byPathTable(po *protoOut) (map[string]int64, []string) {
+func byPathTable(po *protoOut) (map[string]int64, map[string]bool) {
 	tab := map[string]int64{}
-	var conflicts []string
+	ambiguous := map[string]bool{}
 	for _, pf := range po.Files {
 		pf.WalkMessages(func(full string, m *protoparse.Message) {
 			for _, fl := range m.Fields {
@@ -329,13 +329,13 @@ func byPathTable(po *protoOut) (map[string]int64, []string) {
 				}
 				k := sp.Str + " " + fl.Name
 				if old, dup := tab[k]; dup && old != fl.Number {
-					conflicts = append(conflicts, fmt.Sprintf("%s: %d vs %d", k, old, fl.Number))
+					ambiguous[k] = true
 				}
 				tab[k] = fl.Number
 			}
 		})
 	}
-	return tab, conflicts
+	return tab, ambiguous
 }
 
 func dumpOutput(po *protoOut, max int) string {
